@@ -30,7 +30,7 @@ def programs(w):
     kinds = ["function", "method", "static", "class", "pget", "pset", "pdel", "init", "new"]
     forms = ["default", "class", "instance", "factory"]
     idx = 0
-    rounds = 6 if w.tier == "thorough" else 1
+    rounds = 20 if w.tier == "thorough" else 2
     for rnd in range(rounds):
         for kind in kinds:
             for is_async in ((False, True) if kind in ("function", "method", "static", "class") else (False,)):
